@@ -112,7 +112,7 @@ pub fn run(c: &Campaign, seed: u64) -> CampaignResult {
                 total_runs += rest.trim().parse::<u64>().unwrap_or(0);
             }
             if l.starts_with('#') && l.contains("cov:") {
-                let grab = |key: &str| l.split(key).nth(1).and_then(|r| r.split_whitespace().next()).and_then(|v| v.trim_end_matches(|c: char| !c.is_ascii_digit()).parse::<u64>().ok());
+                let grab = |key: &str| l.split(key).nth(1).and_then(|r| r.split_whitespace().next()).and_then(|v| v.split('/').next()).and_then(|v| v.trim_end_matches(|c: char| !c.is_ascii_digit()).parse::<u64>().ok());
                 if let Some(v) = grab("cov: ") {
                     max_cov = max_cov.max(v);
                 }
